@@ -59,14 +59,16 @@ def required_cells(tier):
     cells += ['corrupt:C:letter', 'corrupt:A:letter']
     cells += ['depth:1', 'depth:2', 'depth:3', 'nothing-ran:comment-only', 'nothing-ran:skip-block',
               'nothing-ran:google-no-prompts', 'nothing-ran:bare-prompt', 'no-want-at-all', 'blankline-want:A', 'blankline-want:B', 'ok:I', 'stale-after-ignored-want',
-              'stale-from-before-the-ignored-statement']
+              'stale-from-before-the-ignored-statement', 'ok:want-repeats-printed-markerout',
+              'ok:want-repeats-printed-markermid']
     cells += ['escape:' + k for k, _ in ESCAPES]
     return cells
 
 
 KINDS = ['emit', 'emit', 'twice', 'twice', 'val', 'pv', 'pv', 'assign', 'for', 'multi', 'valml', 'semi', 'semival', 'quiet',
          'blankout', 'wsout', 'emitblank', 'pvblank', 'aval', 'apv', 'acomp', 'coro_obj', 'noeol', 'noeol', 'assignprint', 'assignprint',
-         'strval1', 'dictval1', 'bytesval', 'printq1', 'pvsemi_str', 'pvsemi_comment', 'valsemi_str', 'dotsout', 'dotsout']
+         'strval1', 'dictval1', 'bytesval', 'printq1', 'pvsemi_str', 'pvsemi_comment', 'valsemi_str', 'dotsout', 'dotsout',
+         'markerout', 'markermid']
 
 
 def out_to_want(text):
@@ -140,6 +142,11 @@ def gen_program(rng):
         elif kind == 'coro_obj':
             # the value is a coroutine object that nobody awaits: its body must not run
             S.append(St(['quiet(%d) or acoro(%d)' % (k, k)], kind, k, is_expr=True))
+        elif kind == 'markerout':
+            # the program prints the very characters of the blank-line marker, as a line of its own / inside a line
+            S.append(St(['print("<BLANKLINE>", end=quiet(%d) or "\\n")' % k], kind, k, is_expr=True))
+        elif kind == 'markermid':
+            S.append(St(['print("m%d <BLANKLINE> x", end=quiet(%d) or "\\n")' % (k, k)], kind, k, is_expr=True))
         elif kind == 'blankout':
             # an evaluated expression whose whole output is one empty line (value None)
             S.append(St(['print(end=quiet(%d) or "\\n")' % k], kind, k, is_expr=True))
@@ -166,6 +173,13 @@ def value_repr(st, ref, idx):
     if v is gp.NOVALUE or v is None:
         return None
     return repr(v)
+
+
+def marker_ambiguous(text):
+    lines = text.split('\n')
+    if lines and lines[-1] == '':
+        lines = lines[:-1]
+    return any(ln.strip() == '<BLANKLINE>' for ln in lines) and any(not ln.strip() for ln in lines)
 
 
 def plan_wants(rng, S, ref, corrupt):
@@ -195,6 +209,12 @@ def plan_wants(rng, S, ref, corrupt):
         if st.is_expr and r is not None:
             opts.append(('C', [r]))
         opts = [(t, w) for t, w in opts if gp.want_is_layoutable(w)]
+        # a printed line that spells the marker next to a really empty line: the want syntax cannot tell them apart
+        # (the standard module cannot either)
+        if marker_ambiguous(acc):
+            opts = [(t, w) for t, w in opts if t != 'A']
+        if marker_ambiguous(out):
+            opts = [(t, w) for t, w in opts if t != 'B']
         place = bool(opts) and (rng.random() < 0.55 or corrupt_at == idx)
         if place:
             tag, wl = rng.choice(opts)
@@ -357,6 +377,9 @@ def check_case(ctx, index, case_seed):
         if rec.T != ref.T:
             bad('trace', 'passed, but the event log %r differs from the reference %r' % (rec.T, ref.T))
             return
+        for pi, tag, depth in placed:
+            if S[pi].kind in ('markerout', 'markermid') and tag in ('A', 'B'):
+                ctx.cell('ok:want-repeats-printed-%s' % S[pi].kind)
         for _, tag, depth in placed:
             ctx.cell('ok:' + tag)
             if tag == 'A':
